@@ -16,7 +16,14 @@ D: * OdtContent.iterate_units (real method, objects built in memory) against the
      elements and a CRC-corrupted image member; fixtures with their first image member made unreadable; fixtures
      with junk bytes before / after (BOM, blank line, leftover HTTP header, trailer);
    * observer sequences also call every image / table accessor (get_bytes, ...) and run on in-memory content
-     objects holding error-placeholder images (payload None).
+     objects holding error-placeholder images (payload None);
+   * type-directed in-memory instances of EVERY content dataclass (all / none / all-but-<field> for every field name
+     of the class closure / random fills): every observer and accessor twice, deep snapshot of the object before/after;
+   * workers extract all inputs in one pass and again in reverse order (A, B, ..., B, A): hidden cross-call state;
+     generated inputs include OMML formulas with malformed radicals (DOCX, PPTX) and packages with two members whose
+     names differ only in case.
+   X observer stores: every method/property of every class of data_types.py (initialisers, setters excepted), with a
+     fail-closed alias analysis (names that may alias an object reachable from self; fresh containers of such).
 """
 from __future__ import annotations
 
@@ -510,68 +517,135 @@ def inventory_stream(pkg: Pkg):
     return out, modes
 
 
+MUTATORS = ("append", "extend", "insert", "pop", "remove", "clear", "sort", "reverse", "update", "setdefault",
+            "popitem", "write", "truncate", "add", "discard", "appendleft", "writelines")
+FRESH_WRAPPERS = ("list", "tuple", "reversed", "enumerate", "iter", "sorted", "zip", "set", "frozenset", "dict")
+INITIALISERS = ("__init__", "__post_init__", "populate_from_path")
+
+
 def inventory_observer_writes(pkg: Pkg):
-    """Attribute stores and in-place list mutations whose target is reached from `self` (or a loop variable
-    over something reached from self) inside observer methods of the content classes of data_types.py."""
+    """Writes through `self` in ANY method / property of ANY class of data_types.py (initialisers and property setters
+    excepted): attribute / item stores, augmented assignments and in-place container mutations whose target may alias an
+    object reachable from self.  Simple fail-closed alias analysis:
+      obj   = names that may denote an object reachable from self (self, x = self.a.b, x = self.a[i], x = y for y in obj,
+              loop variables over such objects, over tuples/lists of them, or over fresh containers of them)
+      fresh = names bound to a NEW container holding such objects (list(self.a), sorted(...), comprehensions)
+    Mutating a fresh container itself is fine; everything reached through it is not."""
     rel = f"{PKG}/extractors/data_types.py"
     tree = pkg.mods[rel]
     out = []
-    for cls in [n for n in tree.body if isinstance(n, ast.ClassDef)]:
-        for fn in [n for n in cls.body if isinstance(n, ast.FunctionDef)]:
-            if fn.name not in OBSERVERS + ("get_text", "get_images", "get_tables", "get_bytes", "get_table", "get_dim"):
+
+    def is_setter(fn):
+        return any(isinstance(d, ast.Attribute) and d.attr in ("setter", "deleter") for d in fn.decorator_list)
+
+    for cls in [n for n in ast.walk(tree) if isinstance(n, ast.ClassDef)]:
+        for fn in [n for n in cls.body if isinstance(n, (ast.FunctionDef, ast.AsyncFunctionDef))]:
+            if fn.name in INITIALISERS or is_setter(fn) or not fn.args.args or fn.args.args[0].arg != "self":
                 continue
-            shared = {"self"}
+            obj, fresh = {"self"}, set()
+
+            def classify(e):
+                """'obj' if e may denote an object reachable from self, 'fresh' if a new container of such, else None"""
+                if isinstance(e, ast.Name):
+                    return "obj" if e.id in obj else "fresh" if e.id in fresh else None
+                if isinstance(e, (ast.Attribute, ast.Subscript)):
+                    base = classify(e.value)
+                    return "obj" if base in ("obj", "fresh") else None
+                if isinstance(e, ast.Starred):
+                    return classify(e.value)
+                if isinstance(e, (ast.Tuple, ast.List, ast.Set)):
+                    return "fresh" if any(classify(x) for x in e.elts) else None
+                if isinstance(e, (ast.ListComp, ast.SetComp, ast.GeneratorExp)):
+                    return "fresh" if classify(e.elt) else None      # (comprehension variables are bound below)
+                if isinstance(e, ast.IfExp):
+                    ks = {classify(e.body), classify(e.orelse)}
+                    return "obj" if "obj" in ks else "fresh" if "fresh" in ks else None
+                if isinstance(e, ast.BoolOp):
+                    ks = {classify(v) for v in e.values}
+                    return "obj" if "obj" in ks else "fresh" if "fresh" in ks else None
+                if isinstance(e, ast.NamedExpr):
+                    return classify(e.value)
+                if isinstance(e, ast.Call):
+                    f = e.func
+                    if isinstance(f, ast.Name) and f.id in FRESH_WRAPPERS and e.args:
+                        return "fresh" if any(classify(x) for x in e.args) else None
+                    if isinstance(f, ast.Name) and f.id == "next" and e.args:
+                        return "obj" if any(classify(x) for x in e.args) else None
+                    if isinstance(f, ast.Attribute) and f.attr in ("get", "values", "items", "keys", "copy", "setdefault", "pop") \
+                            and classify(f.value):
+                        return "obj" if f.attr in ("get", "setdefault", "pop") else "fresh"
+                    return None          # any other call result is taken to be a new object
+                return None
+
+            def bind(tgt, kind):
+                changed = False
+                stack = [tgt]
+                while stack:
+                    t = stack.pop()
+                    if isinstance(t, (ast.Tuple, ast.List)):
+                        stack.extend(t.elts)
+                    elif isinstance(t, ast.Starred):
+                        stack.append(t.value)
+                    elif isinstance(t, ast.Name):
+                        dest = obj if kind == "obj" else fresh
+                        if t.id not in dest:
+                            dest.add(t.id)
+                            changed = True
+                return changed
+
             changed = True
-            while changed:     # names bound to something reached from a shared name (loop vars, aliases)
+            while changed:
                 changed = False
                 for n in ast.walk(fn):
-                    tgt, src = None, None
                     if isinstance(n, (ast.For, ast.comprehension)):
-                        tgt, src = n.target, n.iter
-                    elif isinstance(n, ast.Assign) and len(n.targets) == 1:
-                        tgt, src = n.targets[0], n.value
-                    if tgt is None:
-                        continue
-                    if isinstance(src, ast.Call):      # list(self.images) is a new list but the same elements
-                        if isinstance(src.func, ast.Name) and src.func.id in ("list", "reversed", "enumerate", "tuple", "iter") and src.args:
-                            src = src.args[0]
-                        else:
-                            continue                    # any other call result is a fresh object
-                    if isinstance(src, (ast.Subscript,)):
-                        src = src.value
-                    root = src
-                    while isinstance(root, (ast.Attribute, ast.Subscript)):
-                        root = root.value
-                    if isinstance(root, ast.Name) and root.id in shared and isinstance(src, (ast.Attribute, ast.Name, ast.Subscript)):
-                        stack = [tgt]
-                        while stack:      # plain names / tuples of names only (a store into x[i] binds nothing)
-                            t = stack.pop()
-                            if isinstance(t, (ast.Tuple, ast.List)):
-                                stack.extend(t.elts)
-                            elif isinstance(t, ast.Name) and t.id not in shared:
-                                shared.add(t.id)
-                                changed = True
+                        if classify(n.iter):          # elements of an obj / fresh container are objects
+                            changed |= bind(n.target, "obj")
+                    elif isinstance(n, ast.Assign):
+                        k = classify(n.value)
+                        if k:
+                            for t in n.targets:
+                                changed |= bind(t, k)
+                    elif isinstance(n, ast.AnnAssign) and n.value is not None:
+                        k = classify(n.value)
+                        if k:
+                            changed |= bind(n.target, k)
+                    elif isinstance(n, ast.NamedExpr):
+                        k = classify(n.value)
+                        if k:
+                            changed |= bind(n.target, k)
+                    elif isinstance(n, ast.withitem) and n.optional_vars is not None and classify(n.context_expr):
+                        changed |= bind(n.optional_vars, "obj")
+
+            def touches_shared(e):
+                """e is the object being written to / mutated"""
+                if isinstance(e, ast.Name):
+                    return e.id in obj              # a fresh container itself may be mutated
+                return classify(e) == "obj"
+
+            def record(n, what):
+                out.append({"cls": cls.name, "method": fn.name, "line": n.lineno, "what": what})
+
             for n in ast.walk(fn):
                 tgts = []
                 if isinstance(n, ast.Assign):
                     tgts = n.targets
-                elif isinstance(n, (ast.AugAssign, ast.AnnAssign)):
+                elif isinstance(n, ast.AnnAssign) and n.value is not None:
                     tgts = [n.target]
+                elif isinstance(n, ast.AugAssign):
+                    tgts = [n.target]
+                    if isinstance(n.target, ast.Name) and n.target.id in obj and not isinstance(n.value, ast.Constant):
+                        record(n, ast.unparse(n)[:60])      # x += ys on a name that may alias self.<list>: in-place
+                elif isinstance(n, ast.Delete):
+                    tgts = n.targets
                 for t in tgts:
                     for y in ast.walk(t):
-                        if isinstance(y, (ast.Attribute, ast.Subscript)) and isinstance(y.ctx, ast.Store):
-                            root = y.value
-                            while isinstance(root, (ast.Attribute, ast.Subscript)):
-                                root = root.value
-                            if isinstance(root, ast.Name) and root.id in shared:
-                                out.append({"cls": cls.name, "method": fn.name, "line": n.lineno, "what": ast.unparse(t)})
-                if isinstance(n, ast.Call) and isinstance(n.func, ast.Attribute) and n.func.attr in (
-                        "append", "extend", "insert", "pop", "remove", "clear", "sort", "reverse", "update", "setdefault",
-                        "popitem", "write", "truncate"):
-                    v = n.func.value
-                    # only direct attributes of a shared name: self.xs.append(..) / image.tags.append(..)
-                    if isinstance(v, ast.Attribute) and isinstance(v.value, ast.Name) and v.value.id in shared - {"self"} | ({"self"} if isinstance(v.value, ast.Name) and v.value.id == "self" else set()):
-                        out.append({"cls": cls.name, "method": fn.name, "line": n.lineno, "what": ast.unparse(n.func)})
+                        if isinstance(y, (ast.Attribute, ast.Subscript)) and isinstance(y.ctx, (ast.Store, ast.Del)) \
+                                and touches_shared(y.value):
+                            record(n, ast.unparse(y)[:60])
+                if isinstance(n, ast.Call) and isinstance(n.func, ast.Attribute) and n.func.attr in MUTATORS \
+                        and touches_shared(n.func.value):
+                    # x.seek(0) etc. are not in MUTATORS; obj.pop()/get() on dicts of self would be
+                    record(n, ast.unparse(n.func)[:60])
     return out
 
 
@@ -756,6 +830,51 @@ def gen_epub(rng, names):
                      ("OEBPS/images/b.png", PNG_1x1)], corrupt={"OEBPS/images/b.png"})
 
 
+M_NS_DECL = 'xmlns:m="http://schemas.openxmlformats.org/officeDocument/2006/math"'
+PNG_OTHER = PNG_1x1 + b"\x00" * 7       # a different picture (different bytes and size)
+
+
+def gen_omml(rng, n):
+    """n <m:oMath> elements: plain runs containing closing brackets, fractions, scripts, and radicals as Word
+    sometimes writes them (the radical holds only the opening bracket) - closed later in the formula or never."""
+    run = lambda t: f"<m:r><m:t>{xml_esc(t)}</m:t></m:r>"
+    rad = lambda inner: f'<m:rad><m:radPr><m:degHide m:val="1"/></m:radPr><m:deg/><m:e>{inner}</m:e></m:rad>'
+    out = []
+    for i in range(n):
+        k = i if i < 3 else rng.randrange(6)
+        if k == 0:
+            out.append(run(rng.choice(["f(x)", "g(y)+h(t)", "a[i]", "{z}", "p(q[r])"])))
+        elif k == 1:       # malformed radical whose closing bracket never appears
+            out.append(rad(run(rng.choice("([{"))) + run(rng.choice(["a+b", "x", "2y"])))
+        elif k == 2:
+            out.append(run(rng.choice(["u(v)", "w[k]", "s{t}", "(a)(b)"])))
+        elif k == 3:       # malformed radical closed later
+            br = rng.choice(["()", "[]", "{}"])
+            out.append(rad(run(br[0])) + run("a+b" + br[1]))
+        elif k == 4:
+            out.append(f"<m:f><m:num>{run('1')}</m:num><m:den>{run('n(n+1)')}</m:den></m:f>")
+        else:
+            out.append(f"<m:sSup><m:e>{run('x')}</m:e><m:sup>{run('2')}</m:sup></m:sSup>" + rad(run("y")))
+    return [f"<m:oMath {M_NS_DECL}>{x}</m:oMath>" for x in out]
+
+
+def inject_pptx_formulas(data, formulas):
+    """Copy of a PPTX fixture with the formulas placed into the first text paragraph of slide 1; None if not possible."""
+    import zipfile
+    try:
+        with zipfile.ZipFile(io.BytesIO(data)) as z:
+            members = [(i.filename, z.read(i.filename)) for i in z.infolist() if not i.is_dir()]
+    except Exception:  # noqa
+        return None
+    done = False
+    for k, (name, raw) in enumerate(members):
+        if name == "ppt/slides/slide1.xml" and b"</a:p>" in raw:
+            ins = "".join(f'<a14:m xmlns:a14="http://schemas.microsoft.com/office/drawing/2010/main">{f}</a14:m>' for f in formulas)
+            members[k] = (name, raw.replace(b"</a:p>", ins.encode() + b"</a:p>", 1))
+            done = True
+    return make_zip(members) if done else None
+
+
 def gen_docx(rng, names):
     W = "http://schemas.openxmlformats.org/wordprocessingml/2006/main"
     R = "http://schemas.openxmlformats.org/officeDocument/2006/relationships"
@@ -767,18 +886,23 @@ def gen_docx(rng, names):
         body.append(f'<w:p><w:pPr><w:pStyle w:val="{st}"/></w:pPr><w:r><w:t>{xml_esc(rng.choice(names))} {i}</w:t></w:r></w:p>')
     for i, u in enumerate(urls + urls[:2]):      # repeated relationship targets
         body.append(f'<w:p><w:hyperlink r:id="rIdH{i % len(urls)}"><w:r><w:t>link {i}</w:t></w:r></w:hyperlink></w:p>')
-    for k, rid in enumerate(("rIdI1", "rIdI2")):
+    for k, rid in enumerate(("rIdI1", "rIdI2", "rIdI3", "rIdI4")):
         body.append('<w:p><w:r><w:drawing><wp:inline xmlns:wp="http://schemas.openxmlformats.org/drawingml/2006/wordprocessingDrawing">'
                     f'<wp:docPr id="{k + 1}" name="Picture {k + 1}" descr="alt {k + 1}"/>'
                     '<a:graphic xmlns:a="http://schemas.openxmlformats.org/drawingml/2006/main"><a:graphicData>'
                     '<pic:pic xmlns:pic="http://schemas.openxmlformats.org/drawingml/2006/picture"><pic:blipFill>'
                     f'<a:blip r:embed="{rid}"/></pic:blipFill></pic:pic></a:graphicData></a:graphic></wp:inline></w:drawing></w:r></w:p>')
+    for f in gen_omml(rng, rng.randint(3, 6)):
+        body.append(f"<w:p><w:r><w:t>Let </w:t></w:r>{f}<w:r><w:t> hold.</w:t></w:r></w:p>")
     doc = f'<?xml version="1.0"?><w:document xmlns:w="{W}" xmlns:r="{R}"><w:body>' + "".join(body) + "</w:body></w:document>"
     rels = ['<?xml version="1.0"?><Relationships xmlns="http://schemas.openxmlformats.org/package/2006/relationships">']
     for i, u in enumerate(urls):
         rels.append(f'<Relationship Id="rIdH{i}" Type="{R}/hyperlink" Target="{u}" TargetMode="External"/>')
     rels.append(f'<Relationship Id="rIdI1" Type="{R}/image" Target="media/image1.png"/>')
     rels.append(f'<Relationship Id="rIdI2" Type="{R}/image" Target="media/image2.png"/>')
+    # two parts whose names differ only in case (legal in a ZIP package), different pictures
+    rels.append(f'<Relationship Id="rIdI3" Type="{R}/image" Target="media/logo.png"/>')
+    rels.append(f'<Relationship Id="rIdI4" Type="{R}/image" Target="media/Logo.png"/>')
     rels.append("</Relationships>")
     ct = ('<?xml version="1.0"?><Types xmlns="http://schemas.openxmlformats.org/package/2006/content-types">'
           '<Default Extension="rels" ContentType="application/vnd.openxmlformats-package.relationships+xml"/>'
@@ -794,7 +918,8 @@ def gen_docx(rng, names):
             f'<cp:keywords>{xml_esc(kw)}</cp:keywords></cp:coreProperties>')
     return make_zip([("[Content_Types].xml", ct.encode()), ("_rels/.rels", top.encode()), ("word/document.xml", doc.encode()),
                      ("word/_rels/document.xml.rels", "".join(rels).encode()), ("docProps/core.xml", core.encode()),
-                     ("word/media/image1.png", PNG_1x1), ("word/media/image2.png", PNG_1x1)],
+                     ("word/media/image1.png", PNG_1x1), ("word/media/image2.png", PNG_1x1),
+                     ("word/media/logo.png", PNG_1x1), ("word/media/Logo.png", PNG_OTHER)],
                     corrupt={"word/media/image2.png"})
 
 
@@ -808,7 +933,7 @@ def gen_odt(rng, names):
     paras = ['<text:h text:outline-level="1" text:style-name="Heading_20_1">Chapter</text:h>']
     for i, x in enumerate(st):
         paras.append(f'<text:p text:style-name="{x}">{xml_esc(rng.choice(names))} {i}</text:p>')
-    for k, img in enumerate(("a.png", "b.png")):
+    for k, img in enumerate(("a.png", "b.png", "logo.png", "Logo.png")):
         paras.append(f'<text:p><draw:frame draw:name="img{k}" svg:width="1cm" svg:height="1cm"><draw:image '
                      f'xlink:href="Pictures/{img}"/><svg:title>t{k}</svg:title></draw:frame></text:p>')
     content = (f'<?xml version="1.0"?><office:document-content {ns} office:version="1.2"><office:automatic-styles>{auto}'
@@ -824,7 +949,8 @@ def gen_odt(rng, names):
            '</manifest:manifest>')
     return make_zip([("mimetype", b"application/vnd.oasis.opendocument.text"), ("content.xml", content.encode()),
                      ("styles.xml", styles.encode()), ("meta.xml", meta.encode()), ("META-INF/manifest.xml", man.encode()),
-                     ("Pictures/a.png", PNG_1x1), ("Pictures/b.png", PNG_1x1)], corrupt={"Pictures/b.png"})
+                     ("Pictures/a.png", PNG_1x1), ("Pictures/b.png", PNG_1x1), ("Pictures/logo.png", PNG_1x1),
+                     ("Pictures/Logo.png", PNG_OTHER)], corrupt={"Pictures/b.png"})
 
 
 def gen_html(rng, names):
@@ -856,6 +982,11 @@ def gen_documents(ctx, resources, outdir):
         out[f"gen/doc{k}.docx"] = gen_docx(rng, names)
         out[f"gen/text{k}.odt"] = gen_odt(rng, names)
         out[f"gen/page{k}.html"] = gen_html(rng, names)
+    pptx = sorted((q for q in resources.rglob("*.pptx") if "password" not in str(q)), key=lambda q: (q.stat().st_size, q.name))
+    for k, q in enumerate(pptx[: ctx.n(2, 4)]):
+        d = inject_pptx_formulas(q.read_bytes(), gen_omml(rng, rng.randint(3, 6)))
+        if d is not None:
+            out[f"gen/formulas{k}__{q.stem}.pptx"] = d
     by_ext = {}
     for p in sorted(resources.rglob("*")):
         if p.is_file() and "password" not in str(p):
@@ -930,6 +1061,166 @@ def placeholder_objects():
     return objs, skipped
 
 
+def typed_instances(rng, variants, exhaustive=False):
+    """Type-directed in-memory instances of EVERY content dataclass of data_types.py (everything that has
+    iterate_units/to_json/get_full_text), built from the resolved type hints: each str / Optional / list / dict field is
+    independently empty or filled, nested dataclasses (units, slides, sheets, images, tables ...) recursively.
+    -> [(label, instance)], [classes that could not be built]"""
+    import dataclasses
+    import types
+    import typing
+    from sharepoint2text.parsing.extractors import data_types as dt
+    hints_cache = {}
+
+    def hints(cls):
+        if cls not in hints_cache:
+            try:
+                hints_cache[cls] = typing.get_type_hints(cls, vars(dt))
+            except Exception:  # noqa
+                hints_cache[cls] = {f.name: typing.Any for f in dataclasses.fields(cls)}
+        return hints_cache[cls]
+
+    words = ["alpha", "Beta gamma", "Table 1", "x", "Ünï", "line one\nline two"]
+
+    def value(tp, fill, depth, name=""):
+        origin = typing.get_origin(tp)
+        if origin is typing.Union or origin is types.UnionType:
+            args = [a for a in typing.get_args(tp) if a is not type(None)]
+            if type(None) in typing.get_args(tp) and not fill(name):
+                return None
+            return value(rng.choice(args) if args else str, fill, depth, name)
+        if origin in (list, typing.List) or tp is list:
+            args = typing.get_args(tp)
+            if not fill(name) or depth > 5:
+                return []
+            return [value(args[0] if args else str, fill, depth + 1, name) for _ in range(rng.randint(1, 2))]
+        if origin in (dict, typing.Dict) or tp is dict:
+            args = typing.get_args(tp)
+            if not fill(name) or depth > 5:
+                return {}
+            kt = args[0] if args else str
+            return {(value(kt, lambda _n: True, depth + 1) if kt is not str else rng.choice(words)):
+                    value(args[1] if len(args) > 1 else str, fill, depth + 1, name)}
+        if origin in (tuple, typing.Tuple):
+            return tuple(value(a, fill, depth + 1, name) for a in typing.get_args(tp) if a is not Ellipsis)
+        if isinstance(tp, type) and dataclasses.is_dataclass(tp):
+            return build(tp, fill, depth + 1)
+        if tp is str:
+            return rng.choice(words) if fill(name) else ""
+        if tp is bool:
+            return fill(name)
+        if tp is int:
+            return rng.randint(1, 3) if fill(name) else 0
+        if tp is float:
+            return 1.5 if fill(name) else 0.0
+        if tp is bytes:
+            return PNG_1x1 if fill(name) else b""
+        if tp is io.BytesIO:
+            return io.BytesIO(PNG_1x1 if fill(name) else b"")
+        if isinstance(tp, type) and issubclass(tp, dict):
+            return tp()
+        if isinstance(tp, type) and getattr(tp, "_is_protocol", False):
+            # interface-typed field (ImageInterface, TableInterface ...): pick a concrete dataclass implementing it
+            impl = [c for c in vars(dt).values() if isinstance(c, type) and dataclasses.is_dataclass(c)
+                    and tp in c.__mro__ and c is not tp]
+            if impl:
+                return build(sorted(impl, key=lambda c: c.__name__)[rng.randrange(len(impl))], fill, depth + 1)
+        return rng.choice(words) if fill(name) else None     # typing.Any and anything unknown
+
+    def build(cls, fill, depth=0):
+        kw = {}
+        h = hints(cls)
+        for f in dataclasses.fields(cls):
+            if not f.init:
+                continue
+            kw[f.name] = value(h.get(f.name, typing.Any), fill, depth, f.name)
+        return cls(**kw)
+
+    def field_names(cls, seen):
+        """names of all fields in the closure of cls (nested dataclasses and interface implementations)"""
+        if cls in seen:
+            return set()
+        seen.add(cls)
+        names = set()
+        for f in dataclasses.fields(cls):
+            names.add(f.name)
+            stack = [hints(cls).get(f.name)]
+            while stack:
+                tp = stack.pop()
+                stack.extend(typing.get_args(tp))
+                if isinstance(tp, type) and dataclasses.is_dataclass(tp):
+                    names |= field_names(tp, seen)
+                elif isinstance(tp, type) and getattr(tp, "_is_protocol", False):
+                    for c in vars(dt).values():
+                        if isinstance(c, type) and dataclasses.is_dataclass(c) and tp in c.__mro__ and c is not tp:
+                            names |= field_names(c, seen)
+        return names
+
+    out, failed = [], []
+    content = [c for n, c in sorted(vars(dt).items()) if isinstance(c, type) and dataclasses.is_dataclass(c)
+               and all(hasattr(c, m) for m in ("iterate_units", "to_json", "get_full_text")) and c.__module__ == dt.__name__]
+    for cls in content:
+        fills = [("all", lambda _n: True), ("none", lambda _n: False)]
+        # systematic: everything filled except the fields called X (title absent, body present ...), for every X
+        for x in sorted(field_names(cls, set())):
+            fills.append((f"all-but-{x}", lambda n, x=x: n != x))
+            if exhaustive:
+                fills.append((f"only-{x}", lambda n, x=x: n == x))
+        for k in range(variants):
+            pr = rng.choice([0.3, 0.5, 0.7])
+            fills.append((f"rnd{k}", lambda _n, pr=pr: rng.random() < pr))
+        for tag, fill in fills:
+            try:
+                out.append((f"{cls.__name__}#{tag}", build(cls, fill)))
+            except Exception as e:  # noqa
+                failed.append(f"{cls.__name__}#{tag}: {type(e).__name__}: {str(e)[:80]}")
+    return out, failed, [c.__name__ for c in content]
+
+
+def snapshot_oracle(obj):
+    """Every observer and every unit / image / table accessor twice; a deep snapshot (all dataclass fields, lists and
+    dicts copied) of the whole object before and after each call.  -> [(blamed accessor, kind)]"""
+    bad = []
+    names = [n for n in OBSERVERS + PSEUDO if n != "to_json"] + ["to_json"]
+    blamed = set()
+    for name in names:
+        vals = []
+        for rep in range(2):
+            start = canon(obj)
+            blame = f"{type(obj).__name__}.{name}"
+            try:
+                v, blame, _ = call_observer(obj, name, lambda: canon(obj))
+            except Exception as e:  # noqa
+                v = ("raises", type(e).__name__)
+            vals.append(v)
+            if canon(obj) != start:
+                if blame not in blamed:
+                    blamed.add(blame)
+                    bad.append((blame, "modifies the object it observes (deep snapshot before/after differs)"))
+                break
+        else:
+            if vals[0] != vals[1]:
+                bad.append((blame, "returns a different value when called twice in a row"))
+    return bad
+
+
+def describe_instance(obj, limit=1500):
+    import dataclasses
+    def go(v, d):
+        if dataclasses.is_dataclass(v) and not isinstance(v, type):
+            return {"_type": type(v).__name__, **{f.name: go(getattr(v, f.name), d + 1) for f in dataclasses.fields(v)}}
+        if isinstance(v, (list, tuple)):
+            return [go(x, d + 1) for x in v]
+        if isinstance(v, dict):
+            return {str(k): go(x, d + 1) for k, x in v.items()}
+        if isinstance(v, io.BytesIO):
+            return {"_bytesio_len": len(v.getvalue())}
+        if isinstance(v, (bytes, bytearray)):
+            return {"_bytes_len": len(v)}
+        return v if isinstance(v, (str, int, float, bool)) or v is None else repr(v)
+    return go(obj, 0)
+
+
 # =========================================================================================== D: observers
 def canon(v, depth=0):
     """Canonical, address-free rendering of an observer's return value."""
@@ -962,35 +1253,56 @@ IMAGE_ACCESSORS = ("get_bytes", "get_content_type", "get_caption", "get_descript
 PSEUDO = tuple("images." + a for a in IMAGE_ACCESSORS) + ("tables.get_table", "tables.get_dim")
 
 
-def all_images(obj):
-    """every image object reachable through the interface: document level and per unit"""
+def all_images(obj, probe=None):
+    """every image object reachable through the interface: document level and per unit.
+    With `probe` (a function returning a token of the object's state) -> (images, accessor that changed the state while
+    the images were being gathered, or None)."""
+    culprit = None
+    t0 = probe() if probe else None
     out = list(obj.iterate_images())
+    if probe and probe() != t0:
+        culprit, t0 = f"{type(obj).__name__}.iterate_images", probe()
     seen = {id(i) for i in out}
     for u in obj.iterate_units():
         for i in u.get_images():
             if id(i) not in seen:
                 seen.add(id(i))
                 out.append(i)
-    return out
+    if probe and culprit is None and probe() != t0:
+        culprit = f"{type(obj).__name__}.iterate_units"
+    return (out, culprit) if probe else out
 
 
-def call_observer(obj, name):
-    """-> (canonical value, name to blame).  `images.<m>` / `tables.<m>` call accessor m on every image / table."""
-    if name.startswith("images."):
-        m = name.split(".", 1)[1]
-        ims = all_images(obj)
-        return canon([getattr(i, m)() for i in ims]), (f"{type(ims[0]).__name__}.{m}" if ims else name)
-    if name.startswith("tables."):
-        m = name.split(".", 1)[1]
+def gather(obj, name, probe):
+    """targets of a pseudo-observer -> (targets, method, blame name, culprit of a state change while gathering)"""
+    kind, m = name.split(".", 1)
+    if kind == "images":
+        ts, culprit = all_images(obj, probe)
+    else:
+        t0 = probe()
         ts = list(obj.iterate_tables())
-        return canon([getattr(t_, m)() for t_ in ts]), (f"{type(ts[0]).__name__}.{m}" if ts else name)
+        culprit = f"{type(obj).__name__}.iterate_tables" if probe() != t0 else None
+    return ts, m, (f"{type(ts[0]).__name__}.{m}" if ts else f"{type(obj).__name__}.{name}"), culprit
+
+
+def call_observer(obj, name, probe=None):
+    """-> (canonical value, name to blame, state token before the call proper).  `images.<m>` / `tables.<m>` call
+    accessor m on every image / table; gathering them is not part of the observed call."""
+    probe = probe or (lambda: None)
+    if "." in name:
+        ts, m, blame, culprit = gather(obj, name, probe)
+        if culprit:
+            return None, culprit, None
+        before = probe()
+        return canon([getattr(t_, m)() for t_ in ts]), blame, before
+    before = probe()
     r = getattr(obj, name)()
     if name.startswith("iterate_"):
         r = list(r)
         if name == "iterate_units":
             # a unit is observed through its own accessors as well
             r = [(u, u.get_text(), u.get_images(), u.get_tables(), u.get_metadata()) for u in r]
-    return canon(r), f"{type(obj).__name__}.{name}"
+    return canon(r), f"{type(obj).__name__}.{name}", before
 
 
 def observer_sequence_oracle(obj, seq, label):
@@ -1004,7 +1316,7 @@ def observer_sequence_oracle(obj, seq, label):
     for name in seq:
         blame = f"{type(obj).__name__}.{name}"
         try:
-            v, blame = call_observer(obj, name)
+            v, blame, _ = call_observer(obj, name, lambda: digest_json(obj))
         except Exception as e:  # noqa
             v = ("raises", type(e).__name__)
         d = digest_json(obj)
@@ -1044,36 +1356,36 @@ def leaf_digests(j):
 
 
 def worker_main(argv):
-    """python c06.py --worker <out.json> <root> [<root> ...] : extract every supported file under the roots, twice."""
+    """python c06.py --worker <out.json> <root> [<root> ...] : extract every supported file under the roots in one
+    full pass, then all of them again in reverse order (A, B, ..., B, A): the second extraction of every input
+    happens after every other input went through the same process."""
     import logging
     logging.disable(logging.CRITICAL)
     import warnings
     warnings.filterwarnings("ignore")
     from sharepoint2text.parsing.router import get_extractor, is_supported_file
-    res = {}
+    inputs = []
     for k, root in enumerate(Path(a) for a in argv[1:]):
         for p in sorted(root.rglob("*")):
-            rel = ("" if k == 0 else f"@{k}/") + str(p.relative_to(root))
-            if not p.is_file() or not is_supported_file(str(p)):
-                continue
+            if p.is_file() and is_supported_file(str(p)):
+                inputs.append((("" if k == 0 else f"@{k}/") + str(p.relative_to(root)), p))
+    res = {rel: [] for rel, _ in inputs}
+    for order in (inputs, list(reversed(inputs))):
+        for rel, p in order:
             data = p.read_bytes()
-            runs = []
-            for _ in range(2):
-                buf = io.BytesIO(data)
-                try:
-                    objs = list(get_extractor(str(p))(buf, str(p)))
-                    js = [o.to_json() for o in objs]
-                    kinds = [type(o).__name__ for o in objs]
-                    runs.append({"ok": True, "types": kinds,
-                                 "leaves": [leaf_digests(j) for j in js],
-                                 "digest": hashlib.sha256(json.dumps(js, sort_keys=True, default=repr).encode("utf-8", "surrogatepass")).hexdigest()})
-                except Exception as e:  # noqa
-                    runs.append({"ok": False, "types": [], "leaves": [], "digest": "EXC:" + type(e).__name__ + ":" + str(e)[:200]})
-                runs[-1]["input_same"] = (buf.getvalue() == data)
-                if not runs[-1]["input_same"]:
-                    after = buf.getvalue()
-                    runs[-1]["input_after"] = {"len": len(after), "sha256": hashlib.sha256(after).hexdigest()[:16]}
-            res[rel] = runs
+            buf = io.BytesIO(data)
+            try:
+                objs = list(get_extractor(str(p))(buf, str(p)))
+                js = [o.to_json() for o in objs]
+                run_ = {"ok": True, "types": [type(o).__name__ for o in objs], "leaves": [leaf_digests(j) for j in js],
+                        "digest": hashlib.sha256(json.dumps(js, sort_keys=True, default=repr).encode("utf-8", "surrogatepass")).hexdigest()}
+            except Exception as e:  # noqa
+                run_ = {"ok": False, "types": [], "leaves": [], "digest": "EXC:" + type(e).__name__ + ":" + str(e)[:200]}
+            run_["input_same"] = (buf.getvalue() == data)
+            if not run_["input_same"]:
+                after = buf.getvalue()
+                run_["input_after"] = {"len": len(after), "sha256": hashlib.sha256(after).hexdigest()[:16]}
+            res[rel].append(run_)
     Path(argv[0]).write_text(json.dumps(res))
 
 
@@ -1278,6 +1590,19 @@ def run(ctx):
         for seq in [FIXED_SEQ] + [rand_seq() for _ in range(seqs_per_obj)]:
             observe(o, seq, f"in-memory {label} with a placeholder image (data=None)", {"object": label})
             ctx.case(("seq-ph", label, tuple(seq)), True, kind="observer-seq:placeholder")
+
+    # type-directed instances of every content dataclass: deep snapshot before/after every observer, each twice
+    inst, failed, classes = typed_instances(rng, ctx.n(6, 40), exhaustive=(ctx.tier == "thorough"))
+    built = {l.split("#")[0] for l, _ in inst}
+    ctx.extra["typed_instance_classes"] = sorted(built)
+    ctx.obligation("typed in-memory instances built for every content dataclass", built == set(classes) and len(classes) >= 15,
+                   f"not built: {sorted(set(classes) - built)} {failed[:5]}")
+    for label, o in inst:
+        for blame, kind in snapshot_oracle(o):
+            ctx.finding(f"observer-impure:{blame}", f"{blame}() {kind} (type-directed in-memory instance {label})",
+                        {"instance": describe_instance(o), "label": label, "accessor": blame, "kind": kind,
+                         "generator": "tools/props/c06.py typed_instances (seeded by VERIF_SEED)"})
+        ctx.case(("typed", label, repr(canon(o))), True, kind="typed-instance:" + label.split("#")[0])
 
     td_obj = tempfile.TemporaryDirectory(dir="/var/tmp", prefix="c06-gen-")
     gen_root = Path(td_obj.name)
